@@ -37,6 +37,12 @@ def main():
             demo_cmd.append("--no-default-features")
         if feats and "--features" in hdr:
             demo_cmd += ["--features", feats.group(1).strip()]
+        try:
+            mj = json.load(open(os.path.join(d, "meta.json")))
+            if isinstance(mj.get("demo_cmd"), list):
+                demo_cmd = mj["demo_cmd"]
+        except Exception:  # noqa: BLE001
+            pass
         verdict["demo_cmd"] = " ".join(demo_cmd)
         rc0, out0 = sh(demo_cmd, wt)
         verdict["demo_without_change_rc"] = rc0
